@@ -4,5 +4,5 @@ while read id pid tier only skip; do
   [ -z "$id" ] && continue
   args=""; [ "$only" != "-" ] && args="--only $only"; [ "$skip" == "skip" ] && args="$args --skip-suite"
   echo "=== $id $pid $tier $only $(date +%H:%M)"
-  python3 /verif/tools/seedcheck.py /verif/seeded/$id $pid --tier $tier $args -j 5 --wt /tmp/seedwt_$id 2>&1 | tail -25
+  python3 /verif/tools/seedcheck.py /verif/seeded/$id $pid --tier $tier $args -j ${SJ:-5} --wt /tmp/seedwt_$id 2>&1 | tail -25
 done < "$1"
